@@ -383,10 +383,16 @@ func runC03(c *Ctx) {
 					return
 				}
 				for _, pv := range x.PossibleValues(r.Results[0]) {
-					if pv.V == ssa.Value(mi) && !x.edgeDominated(test.Block(), 0)[r.Block()] {
+					// where the value is chosen: the return itself, or the assignment of the
+					// result variable it is returned through
+					at := r.Block()
+					if pv.Store != nil && !pv.Outside {
+						at = pv.Store.Block()
+					}
+					if pv.V == ssa.Value(mi) && !x.edgeDominated(test.Block(), 0)[at] {
 						okT = false
 					}
-					if zc, isCall := pv.V.(*ssa.Call); isCall && fnIs(zc.Call.StaticCallee(), "reflect", "", "Zero") && x.edgeDominated(test.Block(), 1)[r.Block()] {
+					if zc, isCall := pv.V.(*ssa.Call); isCall && fnIs(zc.Call.StaticCallee(), "reflect", "", "Zero") && x.edgeDominated(test.Block(), 1)[at] {
 						// the zero value must be of the map's element type: Type() of the root value followed by
 						// one Elem() more than the Elem() calls between the root value and the MapIndex receiver
 						vElems, vRoot := x.elemChain(cc.Args[0], "value")
@@ -672,7 +678,10 @@ func (x *FnIndex) elemChain(v ssa.Value, kind string) (int, ssa.Value) {
 			n++
 			v = recv
 		case name == "Type" && kind == "type":
-			return n, x.Origin(recv)
+			// Type() of a value that is itself reached through Elem() calls:
+			// Type(v.Elem()) is Type(v).Elem() for the pointers and interfaces involved
+			m, root := x.elemChain(recv, "value")
+			return n + m, root
 		default:
 			if kind == "value" {
 				return n, o
